@@ -12,7 +12,7 @@ exec >"$LOG" 2>&1
 set -x
 git -C /repo worktree remove --force $WT 2>/dev/null
 git -C /repo worktree add -q --detach $WT HEAD || exit 9
-cp /repo/src/sedpack/_sedpack_rs*.so $WT/src/sedpack/
+/verif/tools/build_rust.sh >/dev/null 2>&1; cp /verif/.build/_sedpack_rs.so $WT/src/sedpack/_sedpack_rs.cpython-312-x86_64-linux-gnu.so   # extension built from HEAD (the pre-built one in /repo is older than the Rust fix)
 DEMO=$(ls $SRC | grep -E '^(demo|test_demo).*\.py$' | head -1)
 cp $SRC/$DEMO $WT/$DEMO
 for extra in $SRC/*.py; do [ "$extra" != "$SRC/$DEMO" ] && cp $extra $WT/ ; done
